@@ -1,1 +1,2 @@
 pub mod wacsyn;
+pub mod wit;
